@@ -236,6 +236,14 @@ func (s *Sub) Class(labels ...string) {
 	s.mu.Unlock()
 }
 
+// Count adds n to a class counter (e.g. the number of single-bit flips tried
+// inside one generated case).
+func (s *Sub) Count(label string, n int64) {
+	s.mu.Lock()
+	s.classes[label] += n
+	s.mu.Unlock()
+}
+
 // Stepped counts a case in which a listed defect was stepped around by
 // construction.
 func (s *Sub) Stepped() {
